@@ -1,7 +1,7 @@
 package snapshot
 
-// Store directories in either world, and what they hold (shared by the C07 and C08 harnesses; the
-// file is identical in both directories). Symbolic run: the file-system model of fsmodel.go with
+// Store directories in either world, and what they hold (as in the C07 harness, except that the
+// model database records its size in the header: see fsmodel.go). Symbolic run: the file-system model of fsmodel.go with
 // token contents. Native replay: a real temporary directory with real SQLite files.
 
 import (
@@ -45,6 +45,7 @@ func vDBWith(n int) []byte {
 		for j := 0; j < n; j++ {
 			out = append(out, byte('a'+j))
 		}
+		out[31] = byte(n)
 		return out
 	}
 	vNativeFixtures()
@@ -120,6 +121,9 @@ func vContent(dbPath string, wals []string) (string, error) {
 		n := vFS.file(dbPath)
 		if n == nil || !vIsValidSQLiteFile(dbPath) || len(n.data) < len(vSQLiteHdr) {
 			return "", vErrNotExist
+		}
+		if vMalformedDB(n.data) {
+			return "", vErrBadData
 		}
 		data := n.data
 		for _, w := range wals {
